@@ -182,7 +182,7 @@ Definition members_bindable (direct : bytes * sty -> shape -> bool) : list (byte
   fix go (ms : list (bytes * sty)) (ss : list (bytes * shape)) : bool :=
   match ms, ss with
   | [], [] => true
-  | m :: ms', (_, SPtr s) :: ss' => direct m s && go ms' ss'
+  | m :: ms', (_, SPtr s) :: ss' => direct m s && negb (is_any (snd m)) && go ms' ss'
   | _, _ => false
   end.
 
@@ -229,10 +229,16 @@ Fixpoint bindable (t : sty) (s : shape) {struct t} : bool :=
       end
   end.
 
+(* a Go integer of kind k holding z: in the kind's range; a Go uint (not uint64) above int64 is
+   unreadable on the pinned tree *)
+Definition int_ok (q : quirks) (k : ikind) (z : Z) : bool :=
+  ik_in k z && match k with UInt => q_uint_kind q || (z <? two63z)%Z | _ => true end.
+
 (* ---- well-formed Go values ------------------------------------------------------------------ *)
 
 Section Ok.
   Variable q : quirks.
+  Variable narrow32 : N -> N.
 
   (* content of a location [s] (possibly a pointer, which must then be non-nil) *)
   Definition ok_loc (ok : shape -> gv -> bool) (s : shape) (g : gv) : bool :=
@@ -289,20 +295,24 @@ Section Ok.
     | TBool => match g with GBool _ => true | _ => false end
     | TInt =>
         match s, g with
-        | SInt k, GInt z =>
-            ik_in k z && match k with UInt => q_uint_kind q || (z <? two63z)%Z | _ => true end
+        | SInt k, GInt z => int_ok q k z
         | _, _ => false
         end
-    | TFloat => match g with GFloat _ => true | _ => false end
+    | TFloat =>
+        match s, g with
+        | SFloat true, GFloat b => N.eqb (narrow32 b) b
+        | SFloat false, GFloat _ => true
+        | _, _ => false
+        end
     | TString => match g with GString _ => true | _ => false end
     | TBytes => match g with GBytes _ | GNil => true | _ => false end
     | TLink => match g with GLink _ => true | _ => false end
     | TAny => match g with GNode _ => true | _ => false end
     | TEnum _ ms _ =>
-        match g with
-        | GString x => match enum_by_name x ms with Some _ => true | None => false end
-        | GInt z => match enum_by_int z ms with Some _ => true | None => false end
-        | _ => false
+        match s, g with
+        | SString, GString x => match enum_by_name x ms with Some _ => true | None => false end
+        | SInt k, GInt z => ik_in k z && match enum_by_int z ms with Some _ => true | None => false end
+        | _, _ => false
         end
     | TList _ e nl =>
         match s, g with
@@ -341,6 +351,7 @@ End Ok.
 (* ---- data a type can hold ------------------------------------------------------------------- *)
 
 Section Fits.
+  Variable q : quirks.
   Variable lv : level.
   Variable narrow32 : N -> N.
 
@@ -380,7 +391,7 @@ Section Fits.
   Fixpoint fits (t : sty) (s : shape) (d : dm) {struct t} : bool :=
     match t with
     | TBool => match d with DBool _ => true | _ => false end
-    | TInt => match s, d with SInt k, DInt z => ik_in k z | _, _ => false end
+    | TInt => match s, d with SInt k, DInt z => int_ok q k z | _, _ => false end
     | TFloat =>
         match s, d with
         | SFloat true, DFloat b => N.eqb (narrow32 b) b
